@@ -127,6 +127,38 @@ pub fn bytes_via_file(f: impl FnOnce(&Path) -> bool) -> Option<Vec<u8>> {
 }
 
 // ------------------------------------------------------------------------------------------------
+// cost control for decompression bombs
+
+/// Address-space limit (MiB) for parsers that can be driven into producing output / looping in
+/// proportion to an unvalidated length field (LZ back-reference lengths, `original_size` headers).
+pub const BOMB_AS_LIMIT_MIB: u64 = 512;
+
+/// Lower this process's soft RLIMIT_AS to `BOMB_AS_LIMIT_MIB` (once).  The engine runs every case in a
+/// forked child under RLIMIT_AS 2 GiB; a mutant whose length field says "4 GiB" then pushes bytes for
+/// several seconds (or past the 10 s watchdog) before the allocator gives up.  With a 512 MiB limit the
+/// same run-away dies after ~0.3 s with the same verdict (`crash/signal_6`: allocation failure -> abort),
+/// which keeps the enumeration (and the replay of the recorded witnesses in every shard) affordable.
+/// It cannot hide anything: any single allocation above 64*(input+expected)+1 MiB (~1 MiB here) is a
+/// violation already, far below the limit.  Only called from `parse` functions, i.e. inside the child.
+pub fn limit_address_space() {
+    use std::sync::atomic::{AtomicBool, Ordering};
+    static DONE: AtomicBool = AtomicBool::new(false);
+    if DONE.swap(true, Ordering::Relaxed) {
+        return;
+    }
+    unsafe {
+        let mut lim = libc::rlimit { rlim_cur: 0, rlim_max: 0 };
+        if libc::getrlimit(libc::RLIMIT_AS, &mut lim) == 0 {
+            let want = BOMB_AS_LIMIT_MIB << 20;
+            if lim.rlim_cur == libc::RLIM_INFINITY || lim.rlim_cur > want {
+                lim.rlim_cur = want;
+                libc::setrlimit(libc::RLIMIT_AS, &lim);
+            }
+        }
+    }
+}
+
+// ------------------------------------------------------------------------------------------------
 
 pub fn all(tier: Tier) -> Vec<P> {
     let mut v = Vec::new();
